@@ -99,9 +99,15 @@ def cmd_check(prop: str, tier: str) -> int:
     for rule in sorted(by_rule):
         obs = by_rule[rule]
         print(f"  {rule}: {sum(1 for o in obs if o.ok)}/{len(obs)} hold")
-    if result.error:
+    known_keys = {(k.rule, k.construct) for k in load_known() if k.prop == prop}
+    definite = [o for o in result.violations if (o.rule, o.construct) not in known_keys]
+    if result.error and not definite:
         print(f"ANALYSIS-ERROR property={prop} {result.error}")
         return 2
+    if result.error:
+        # a definite violation was found before / besides the part that could not be decided: it
+        # stands on its own
+        print(f"  note: part of the analysis was not decided ({result.error.splitlines()[0][:200]})")
 
     # known findings
     known = [k for k in load_known() if k.prop == prop]
